@@ -20,6 +20,10 @@ for line in open(os.path.join(V, 'properties.jsonl')):
 ids = ids or sorted(props)
 
 FOCUS = {
+    '5': ('look for slips in code that the earlier ideas listed below have NOT touched (helper functions, rarely used keyword arguments, '
+          'less common region classes, error and warning paths, the interplay of two classes or two modules), and for slips that show '
+          'only for particular VALUES that are legal but easy to forget: zero, negative, equal, empty, one-element, very large or very '
+          'small, integer instead of float, another unit, a second call with other arguments, the last element instead of the first'),
     '4': ('prefer slips that show only for an unusual-but-legal VALUE, a COMBINATION of two options or parameters, an ORDER of '
           'elements, or an interaction between two public methods (e.g. what one method leaves behind for another), and slips at a '
           'code site nobody has touched yet (look at the less travelled methods and branches named in the anchors)'),
